@@ -114,3 +114,19 @@ Fixpoint spec_deliver (s : wstream) (e : wentry) : list (N * wentry) :=
   | STee a b => spec_deliver a e ++ spec_deliver b e
   | SOutputTo s' => spec_deliver s' e
   end.
+
+(* A sequence of entries through one adapter instance: entry number k is treated exactly as a first entry would
+   be - what the terminals are handed depends on that entry and the adapter's construction parameters only, not
+   on what happened to earlier entries; the Result is the first failing terminal's error. *)
+Fixpoint spec_result (fs : failspec) (k : nat) (s : wstream) : option (N * N) :=
+  match s with
+  | STerm id => term_result fs id k
+  | SMergeGlobals s' _ | SMergeGDims s' _ _ | SForce s' _ | SOutputTo s' => spec_result fs k s'
+  | STee a b => match spec_result fs k a with Some x => Some x | None => spec_result fs k b end
+  end.
+Fixpoint spec_feed (dl : wstream -> wentry -> list (N * wentry)) (fs : failspec) (k : nat) (s : wstream) (es : list wentry)
+  : list (option (N * N) * list (N * wentry)) :=
+  match es with
+  | [] => []
+  | e :: r => (spec_result fs k s, dl s e) :: spec_feed dl fs (Datatypes.S k) s r
+  end.
